@@ -1435,6 +1435,149 @@ def stream_itemid(ctx, env):
     ctx.coverage["evaluations"] += len(lines)
 
 
+# ---------------------------------------------------------------------------------------------
+# real primitive rules (no model: the oracle replays with the kernel's own Thm functions)
+# ---------------------------------------------------------------------------------------------
+def stream_real(ctx, env):
+    """Natural-deduction proofs over propositional variables with the real rules assume /
+    implies_intr / implies_elim / substitution {} / sorry / subproof; every item states its sequent,
+    then one citation or one id is perturbed.  Accepted => an independent replay (positions,
+    visibility, `primitive_deriv` applied to sequents the replay verified itself) must succeed."""
+    from kernel.term import Var, Implies, Inst
+    from kernel.thm import Thm, primitive_deriv
+    from kernel.type import BoolType
+    theory, Proof, ProofItem = env.theory, env.Proof, env.ProofItem
+    rng = ctx.rng("real")
+    V = [Var(n, BoolType) for n in "ABC"]
+    false = env.Const("false", BoolType)
+
+    def build(items):
+        prf = Proof()
+        for id_, rule, args, prevs, th, sub in items:
+            it = ProofItem(tuple(id_), rule, args=args, prevs=[tuple(p) for p in prevs], th=th)
+            if sub is not None:
+                it.subproof = build(sub)
+            prf.items.append(it)
+        return prf
+
+    def replay_ok(items, no_gaps):
+        verified = {}
+
+        def block(its, pre):
+            for k, (id_, rule, args, prevs, th, sub) in enumerate(its):
+                pos = pre + (k,)
+                if rule == "":
+                    continue
+                if rule == "sorry":
+                    if no_gaps or th is None:
+                        return "gap-tolerated-with-no-gaps"
+                    verified[pos] = th
+                    continue
+                if rule == "subproof":
+                    r = block(sub or [], pos)
+                    if r:
+                        return r
+                    comp = verified.get(pos + (len(sub or []) - 1,))
+                    if comp is None:
+                        return "block-result-unverified"
+                else:
+                    prem = []
+                    for c in prevs:
+                        c = tuple(c)
+                        if c in verified and visible(pos, c):
+                            prem.append(verified[c])
+                        else:
+                            return ("cites-negative-index" if any(x < 0 for x in c) else "cites-itself" if c == pos
+                                    else "cites-forward" if c > pos else "cites-unverified-or-closed")
+                    try:
+                        f = primitive_deriv[rule][0]
+                        comp = f(*prem) if args is None else f(args, *prem)
+                    except Exception:
+                        return "rule-failed"
+                if th is not None and not (comp.prop == th.prop and set(comp.hyps) <= set(th.hyps)):
+                    return "stated-stronger-than-computed"
+                verified[pos] = th if th is not None else comp
+            return None
+        r = block(items, ())
+        return r, verified.get((len(items) - 1,))
+
+    def gen():
+        n = rng.randint(1, 7)
+        items, known = [], {}
+        for k in range(n):
+            pos = (k,)
+            opts = ["assume"]
+            if known:
+                opts += ["intr", "subst"]
+            imps = [(p, q) for p in known for q in known if known[p].prop.is_implies() and known[p].prop.arg1 == known[q].prop]
+            if imps:
+                opts += ["elim", "elim"]
+            o = rng.choice(opts)
+            if o == "assume":
+                a = rng.choice(V + [Implies(rng.choice(V), rng.choice(V))])
+                rule, args, prevs, comp = "assume", a, [], Thm.assume(a)
+            elif o == "intr":
+                p = rng.choice(list(known))
+                a = rng.choice(list(known[p].hyps) or V)
+                rule, args, prevs, comp = "implies_intr", a, [p], Thm.implies_intr(a, known[p])
+            elif o == "subst":
+                p = rng.choice(list(known))
+                rule, args, prevs, comp = "substitution", Inst(), [p], known[p]
+            else:
+                p, q = rng.choice(imps)
+                rule, args, prevs, comp = "implies_elim", None, [p, q], Thm.implies_elim(known[p], known[q])
+            th = comp if rng.random() < 0.8 else None
+            items.append([list(pos), rule, args, [list(p) for p in prevs], th, None])
+            known[pos] = comp
+        return items
+
+    fixed = [
+        ("D1", [[[0], "substitution", Inst(), [[-1]], Thm(false), None]]),
+        ("D2", [[[5], "substitution", Inst(), [[0]], Thm(false), None]]),
+        ("D4", [[[0], "", None, [], Thm(false), None], [[1], "substitution", Inst(), [[0]], None, None]]),
+        ("D5", [[[0], "subproof", None, [], None, [[[0, 0], "", None, [], Thm(false), None]]]]),
+        ("fwd", [[[0], "substitution", Inst(), [[1]], Thm(false), None], [[1], "substitution", Inst(), [[0]], Thm(false), None]]),
+    ]
+    cases = [(n, its) for n, its in fixed]
+    for i in range(ctx.scale(1500, 20000)):
+        its = gen()
+        if rng.random() < 0.7:
+            k = rng.randrange(len(its))
+            w = rng.randrange(5)
+            tgt = [[k], [rng.randint(k, len(its))], [-1], [-rng.randint(1, len(its))], [k, 0]][w]
+            if w == 4 or not its[k][3] or its[k][1] == "assume":
+                # change the id instead / make it a self-justifying line
+                if rng.random() < 0.5:
+                    its[k][0] = [its[k][0][0] + rng.choice([1, 2, -1])]
+                else:
+                    its[k] = [its[k][0], "substitution", Inst(), [tgt if w != 4 else [k]], its[k][4] or Thm(false), None]
+            else:
+                its[k][3][rng.randrange(len(its[k][3]))] = tgt
+        cases.append(("rand%d" % i, its))
+    theory.thy = theory.EmptyTheory()
+    for name, items in cases:
+        for ng in (False, True):
+            prf = build(items)
+            try:
+                with time_limit(30):
+                    res = theory.check_proof(prf, no_gaps=ng)
+                acc = True
+            except Timeout:
+                raise
+            except Exception as e:  # noqa
+                acc, res = False, type(e).__name__
+            ctx.case(("real", name, ng), nontrivial=len(items) >= 2)
+            ctx.count("real:%s" % ("ok" if acc else res))
+            if not acc:
+                continue
+            why, final = replay_ok(items, ng)
+            if why is None and res is not None and (final is None or not (final.prop == res.prop and set(final.hyps) == set(res.hyps))):
+                why = "result-not-verified"
+            if why:
+                ctx.violation("accepted:" + why, "check_proof accepted (real rules) a proof that is not justified (%s): %s" % (why, str(prf).replace("\n", "; ")),
+                              {"kind": "real", "name": name, "no_gaps": ng, "proof": str(prf), "reason": why})
+
+
 def corpus_cases(ctx):
     p = os.path.join(ctx.verif, "corpus", "c02.json")
     if os.path.exists(p):
@@ -1489,6 +1632,7 @@ def run(ctx):
     try:
         env = Env(ctx)
         stream_itemid(ctx, env)
+        stream_real(ctx, env)
         # corpus first
         corp = corpus_cases(ctx)
         if corp.get("check"):
@@ -1568,6 +1712,10 @@ def replay(ctx, rp):
             res = env.extend(r["case"])
             print("implementation:", res)
             judge_extend(ctx, env, r["case"], res)
+        elif r.get("kind") == "real":
+            # the real-rule stream is regenerated from the seed; the recorded proof text is for the reader
+            stream_real(ctx, env)
+            ctx.violations = [v for v in ctx.violations if v[0] == rp.get("key")]
     finally:
         env.close()
     for v in ctx.violations:
@@ -1577,26 +1725,35 @@ def replay(ctx, rp):
 
 MANIFEST = {
     "text": "Lean theorems about an executable model of _check_proof_item/check_proof/find_item/checked_extend with the rule layer as a "
-            "parameter (every rule set, every fuel): accepted proofs are justified in check order, no placeholder survives no_gaps at any "
-            "depth incl. expansions, reported gaps are exactly the placeholders met, stated sequents are no stronger than computed ones, "
-            "checked_extend admits as proved only gap-free accepted proofs concluding the theorem; ItemID facts are proved about definitions "
-            "translated from the Python source on every run. Model tied to kernel/theory.py and kernel/proof.py by differential runs on "
-            "generated proof objects (exhaustive small shapes + random); every proof the real checker accepts is judged by an independent "
-            "reference checker.",
+            "parameter (every rule set, every fuel, every proof object): accepted_justified + trace_covers (every statement that became "
+            "citable, every item reached through subproof blocks and the result have a derivation built in check order), no_gaps_exact / "
+            "no_gaps_justified (no placeholder at any depth incl. expansions), gaps_reported_exact, stated_not_stronger, "
+            "extend_admits_only_proved, and ItemID facts (can_depend_on irreflexive, transitive, precedes in document order, resolves only to "
+            "visible positions) proved about definitions translated from kernel/proof.py and kernel/thm.py on every run. Model tied to "
+            "kernel/theory.py and kernel/proof.py (with fixes C02-1..4) by differential runs on generated proof objects over a toy rule set "
+            "(exhaustive small shapes + random, ids != positions, negative ids, forward/self/closed-block citations, nested placeholders); "
+            "every proof the real checker accepts (toy rules and real primitive rules) is judged by an independent reference checker.",
     "note": "Trusted: Lean kernel, propext/Classical.choice/Quot.sound, the harness (generators, toy rule set implemented on both sides, "
-            "reference checker, translator). The rule layer is abstract: real primitive rules and macro bodies are C01/C04. compute_only=True "
-            "is covered by correspondence only (it trusts statements by design). ProofReport step counters are not modelled.",
+            "reference checker, translator). The rule layer is abstract: real primitive rules and macro bodies are C01/C04; the `variable` "
+            "rule is modelled but not exercised. compute_only=True is covered by correspondence only (it trusts statements by design). "
+            "Proof objects are assumed to be trees (no shared ProofItem). ProofReport step counters and Proof.get_sorrys are not modelled.",
     "design_ref": "DESIGN.md 4/C02",
 }
 FINDINGS = [
-    {"status": "fixed", "key": "accepted:cites-negative-index",
-     "what": "check_proof accepted `0: |- false by <rule> from -1`: Proof.find_item used Python's negative indexing, so the line cited itself"},
-    {"status": "fixed", "key": "accepted:cites-itself",
+    {"status": "fixed", "key": "accepted:cites-negative-index", "commit": "fixes/C02-1.patch",
+     "what": "check_proof accepted `0: |- false by substitution {} from -1`: Proof.find_item used Python's negative indexing, so the line cited itself"},
+    {"status": "fixed", "key": "accepted:cites-itself", "commit": "fixes/C02-2.patch",
      "what": "check_proof accepted an item at position 0 carrying id 5 and citing 0 (itself): ids were never compared with positions"},
-    {"status": "fixed", "key": "accepted:cites-unverified-item",
+    {"status": "fixed", "key": "accepted:cites-unverified-item", "commit": "fixes/C02-3.patch",
      "what": "check_proof accepted a citation of an empty line (rule '') that carries a statement nobody verified"},
-    {"status": "fixed", "key": "extend:admitted-unproved:wrong-conclusion",
+    {"status": "fixed", "key": "accepted:cites-unverified-or-closed", "commit": "fixes/C02-3.patch",
+     "what": "the same with the real rules: `0: |- false by ''; 1: |- false by substitution {} from 0` was accepted"},
+    {"status": "fixed", "key": "accepted:result-not-verified", "commit": "fixes/C02-3.patch",
+     "what": "check_proof returned the unverified statement of a final empty line as the proved theorem"},
+    {"status": "fixed", "key": "accepted:block-result-unverified", "commit": "fixes/C02-3.patch",
+     "what": "a subproof block ending in a stated empty line passed that statement on as the block's result"},
+    {"status": "fixed", "key": "extend:admitted-unproved:wrong-conclusion", "commit": "fixes/C02-4.patch",
      "what": "checked_extend installed Theorem('bogus', |- false, prf) as proved although prf proves something else"},
-    {"status": "fixed", "key": "extend:admitted-unproved:has-gaps",
-     "what": "checked_extend installed a theorem as proved although its proof contains sorry"},
+    {"status": "fixed", "key": "extend:admitted-unproved:proof-not-justified:gap-tolerated-with-no-gaps", "commit": "fixes/C02-4.patch",
+     "what": "checked_extend installed a theorem as proved although its proof contains a placeholder"},
 ]
